@@ -50,6 +50,15 @@ func liveBuilderHistory(c *Ctx, r *Rng, s sqCase, site string) {
 		if len(blobtxs) > 0 {
 			p := r.Intn(len(blobtxs))
 			j := r.Intn(nBlobsOf[p])
+			if r.Bool(50) || len(blobtxs) >= 64 {
+				// the length alone, BEFORE anything exports (an index built over the unsorted blobs must not
+				// survive the sort of the next export)
+				ops = append(ops, fmt.Sprintf("l%d/%d", len(normals)+p, j))
+				ln0, err0 := b.BlobShareLength(len(normals)+p, j)
+				want0, err3 := square.BlobShareRange(list, len(normals)+p, j, s.max, s.thr)
+				c.check(err0 == nil && err3 == nil && ln0 == want0.End-want0.Start, site,
+					"the live builder's BlobShareLength differs from BlobShareRange over the same transactions", wit)
+			}
 			ops = append(ops, fmt.Sprintf("s%d/%d", len(normals)+p, j))
 			idx, err1 := b.FindBlobStartingIndex(len(normals)+p, j)
 			ln, err2 := b.BlobShareLength(len(normals)+p, j)
@@ -90,6 +99,7 @@ func liveBuilderHistory(c *Ctx, r *Rng, s sqCase, site string) {
 		}
 	}
 	query()
+	query()
 	ops = append(ops, "x")
 	fin, err := b.Export()
 	list := append(append([][]byte{}, normals...), blobtxs...)
@@ -98,6 +108,23 @@ func liveBuilderHistory(c *Ctx, r *Rng, s sqCase, site string) {
 	c.add("builderops", strconv.Itoa(s.max), strconv.Itoa(s.thr), strings.Join(ops, ","))
 	c.count("live_builder_history")
 	c.mark("live " + s.shape() + " | " + histShape(ops))
+}
+
+// manyBlobLiveCase: 66-90 one-blob transactions in DESCENDING namespace order with pairwise different share
+// counts (the export's sort moves every blob), for histories on one live builder.
+func manyBlobLiveCase(r *Rng) sqCase {
+	n := 66 + r.Intn(25)
+	var l []genTx
+	for i := 0; i < n; i++ {
+		ns := make([]byte, 29)
+		ns[19] = 0x77
+		ns[27] = byte((n - i) >> 8)
+		ns[28] = byte(n - i)
+		b := genBlob{ns: ns, data: r.Bytes(1 + 482*(i%9) + r.Intn(400))}
+		bl := []genBlob{b}
+		l = append(l, genTx{raw: blobTxWithInner(mockPFB(r.Bytes(mockPFBExtraBytes), []uint32{uint32(len(b.data))}), bl), blobs: bl})
+	}
+	return sqCase{txs: l, max: 32, thr: 64}
 }
 
 // boundaryExportHistories: write / export histories of a compact splitter in which an export happens
